@@ -59,6 +59,9 @@ pub enum Form {
     JsonProps,
     /// min/maxProperties with one required declared property
     JsonPropsRequired,
+    /// minLength/maxLength next to an `enum` of strings with 0..n+3 characters (1-, 2- and 4-byte characters mixed):
+    /// the members are literals, whose length is checked where the schema is compiled
+    JsonLenEnum,
 }
 
 pub const FORMS: &[Form] = &[
@@ -85,6 +88,7 @@ pub const FORMS: &[Form] = &[
     Form::JsonLenUnicodeEscape,
     Form::JsonProps,
     Form::JsonPropsRequired,
+    Form::JsonLenEnum,
 ];
 
 /// how the bound is written
@@ -132,7 +136,7 @@ pub struct C09;
 fn is_json(f: Form) -> bool {
     matches!(
         f,
-        Form::JsonItems | Form::JsonItemsPrefix | Form::JsonLenAscii | Form::JsonLenE | Form::JsonLenEmoji | Form::JsonLenEscape | Form::JsonLenUnicodeEscape | Form::JsonProps | Form::JsonPropsRequired
+        Form::JsonItems | Form::JsonItemsPrefix | Form::JsonLenAscii | Form::JsonLenE | Form::JsonLenEmoji | Form::JsonLenEscape | Form::JsonLenUnicodeEscape | Form::JsonProps | Form::JsonPropsRequired | Form::JsonLenEnum
     )
 }
 
@@ -176,6 +180,13 @@ pub fn grammar(c: &Case) -> Option<GrammarSpec> {
                 Form::JsonItemsPrefix => json!({"type":"array","prefixItems":[{"type":"boolean"},{"type":"null"}],"items":{"type":"integer"}}),
                 Form::JsonProps => json!({"type":"object","additionalProperties":{"type":"integer"}}),
                 Form::JsonPropsRequired => json!({"type":"object","properties":{"a":{"type":"integer"}},"required":["a"],"additionalProperties":{"type":"integer"}}),
+                Form::JsonLenEnum => {
+                    let top = match hi {
+                        Some(h) => h + 3,
+                        None => lo + 6,
+                    };
+                    json!({"type":"string","enum":(0..=top).map(|k| enum_member(k as usize)).collect::<Vec<_>>()})
+                }
                 _ => json!({"type":"string"}),
             };
             let (kmin, kmax) = match f {
@@ -205,6 +216,11 @@ pub fn grammar(c: &Case) -> Option<GrammarSpec> {
 /// second count of the pair forms: n-m (at least 1)
 pub fn pair_d(m: u32, n: u32) -> u32 {
     (n - m).max(1)
+}
+
+/// the k-character member of the JsonLenEnum form: a prefix of x é 😀 y x é 😀 y ...
+fn enum_member(k: usize) -> String {
+    ['x', 'é', '😀', 'y'].iter().cycle().take(k).collect()
 }
 
 fn ab(k: usize) -> String {
@@ -284,6 +300,7 @@ pub fn sample(form: Form, k: u32) -> Vec<u8> {
             let items: Vec<String> = (0..k).map(|i| if i == 0 { "true".to_string() } else if i == 1 { "null".to_string() } else { "3".to_string() }).collect();
             format!("[{}]", items.join(",")).into_bytes()
         }
+        Form::JsonLenEnum => format!("\"{}\"", enum_member(k)).into_bytes(),
         Form::JsonLenAscii => format!("\"{}\"", "x".repeat(k)).into_bytes(),
         Form::JsonLenE => format!("\"{}\"", "é".repeat(k)).into_bytes(),
         Form::JsonLenEmoji => format!("\"{}\"", "😀".repeat(k)).into_bytes(),
